@@ -599,8 +599,9 @@ func (i *IRCServer) ThrottleUntil(sessionid robust.Id) time.Time {
 	if cooloff == 0 {
 		return time.Time{}
 	}
-	i.sessionsMu.RLock()
-	defer i.sessionsMu.RUnlock()
+	// throttlingExponent is modified below, so a read lock is not sufficient.
+	i.sessionsMu.Lock()
+	defer i.sessionsMu.Unlock()
 
 	if s, ok := i.sessions[sessionid]; ok && !s.Server {
 		// Reset throttlingExponent when the session was idle long enough.
